@@ -1,4 +1,132 @@
-import AwModel.Store.Commit
-/-! # C18 — placeholder while the theorems are being written (no claims yet) -/
+import AwProofs.Lemmas.Commit
+/-!
+# C18 — buffered writes are flushed once they are about ten seconds old
+
+Property theorems only, on the commit machine `Aw.Store.Commit` with the age test as repaired
+(F1: `now - last_commit > 10 s`, i.e. 10000000 µs). Definitions (in `AwProofs/Lemmas/Commit.lean`):
+`COp`, `cstep`, `crun`, `cok`, `curHist`, `lastD`, `Init` as in C06; `Mono t ops` says that the clock
+readings of `ops` never go back, starting from `t`.
+
+The age rule holds on both stores (the auto-committing one commits anyway), so `age_flush` does
+not need `lazy = true`; the hypothesis is only used where the count bound is.
+-/
 namespace AwProofs.C18
+open Aw Aw.Store Aw.Store.Commit AwProofs.CommitL
+variable {D : Type}
+
+/-- An event write issued more than ten seconds after the previous flush is itself made durable
+    before it returns: in ANY state, after `insert_one` (that returns), `replace`, `replace_last`
+    or `delete` at a clock reading more than 10 s after `last`, the reopened database equals the
+    connection state — the write itself included —, nothing is pending and `last` is that reading. -/
+theorem age_flush (c : CSt D) (op : COp D) (hs : op.isSingleEventWrite = true)
+    (hok : cok c op = true) (ha : op.now - c.last > 10000000) :
+    (cstep c op).dur = (cstep c op).cur ∧ (cstep c op).pend = [] ∧ (cstep c op).last = op.now := by
+  rcases single_form c op hs with ⟨_, s, _, e⟩ | ⟨e, _⟩
+  · rw [e]; exact condCommit_age' (Commit.wrote c s op.now) 1 op.now ha
+  · rw [e] at hok; cases hok
+
+/-- … and the connection state then contains the write: it is the one elementary write of the
+    operation applied to the previous connection state. -/
+theorem age_flush_includes_write (c : CSt D) (op : COp D) (hs : op.isSingleEventWrite = true)
+    (hok : cok c op = true) (ha : op.now - c.last > 10000000) :
+    ∃ s, elems c.cur op = [s] ∧ (cstep c op).dur = s := by
+  rcases single_form c op hs with ⟨_, s, hs', e⟩ | ⟨e, _⟩
+  · refine ⟨s, hs', ?_⟩
+    rw [e, (condCommit_age (Commit.wrote c s op.now) 1 op.now ha).1]; rfl
+  · rw [e] at hok; cases hok
+
+/-- `insert_many` whose list has an upsert, first one `e`: it is that upsert followed by
+    `insert_many` of the rest, and if it is issued more than 10 s after the previous flush then
+    right after this first upsert everything up to it is durable. -/
+theorem age_flush_insertMany_upsert (c : CSt D) (now : Int) (b : String) (es : List (Ev D))
+    (e : Ev D) (rest : List (Ev D)) (h : es.filter (fun e => e.id.isSome) = e :: rest)
+    (ha : now - c.last > 10000000) :
+    Commit.insertMany c now b es =
+      Commit.insertMany (Commit.replace c now b (e.id.getD 0) e) now b
+        (rest ++ es.filter (fun e => e.id.isNone)) ∧
+    (Commit.replace c now b (e.id.getD 0) e).cur = Sqlite.replace c.cur b (e.id.getD 0) e ∧
+    (Commit.replace c now b (e.id.getD 0) e).dur = (Commit.replace c now b (e.id.getD 0) e).cur ∧
+    (Commit.replace c now b (e.id.getD 0) e).pend = [] ∧
+    (Commit.replace c now b (e.id.getD 0) e).last = now := by
+  refine ⟨insertMany_first_upsert c now b es e rest h, ?_, ?_⟩
+  · exact (condCommit_cases _ 1 now).1
+  · exact condCommit_age' (Commit.wrote c _ now) 1 now ha
+
+/-- `insert_many` with only new rows, issued more than 10 s after the previous flush and
+    returning normally: after the operation everything is durable. -/
+theorem age_flush_insertMany_rows (c : CSt D) (now : Int) (b : String) (es : List (Ev D))
+    (h : es.filter (fun e => e.id.isSome) = [])
+    (hok : cok c (.insertMany now b es) = true) (ha : now - c.last > 10000000) :
+    (cstep c (.insertMany now b es)).dur = (cstep c (.insertMany now b es)).cur ∧
+    (cstep c (.insertMany now b es)).pend = [] ∧ (cstep c (.insertMany now b es)).last = now := by
+  simp only [cstep]
+  rw [insertMany_ok _ _ _ _ hok]
+  apply condCommit_age'
+  rw [insertManyMid, (insertRows_fields _ now b _).2.1, h]
+  exact ha
+
+/-- Under a clock that never goes back, after any history every pending write was issued at or
+    after the last commit and at most 10 s after it (and not after the last clock reading). -/
+theorem pending_young (c0 : CSt D) (h0 : Init c0) (ops : List (COp D)) (hm : Mono c0.last ops) :
+    ∀ t ∈ (crun c0 ops).pend,
+      (crun c0 ops).last ≤ t ∧ t - (crun c0 ops).last ≤ 10000000 ∧ t ≤ lastNow c0.last ops := by
+  intro t ht
+  have := (h0.young.run ops hm).2 t ht
+  omega
+
+/-- The data at risk in a crash is bounded in count and in age: on the lazy store under a clock
+    that never goes back, after any history the reopened database holds the state after a prefix
+    of the elementary writes; the lost tail consists of exactly `pend.length ≤ 50` elementary
+    writes, each issued within the 10 s that followed the last commit. -/
+theorem at_risk_bounded (c0 : CSt D) (h0 : Init c0) (hl : c0.lazy = true) (ops : List (COp D))
+    (hm : Mono c0.last ops) :
+    ∃ pre post, curHist c0 ops = pre ++ post ∧ (crun c0 ops).dur = lastD c0.cur pre ∧
+      post.length = (crun c0 ops).pend.length ∧ post.length ≤ 50 ∧
+      ∀ t ∈ (crun c0 ops).pend, (crun c0 ops).last ≤ t ∧ t - (crun c0 ops).last ≤ 10000000 := by
+  obtain ⟨pre, post, e, hd, hlen⟩ := (pre_run c0 h0.1 h0.2.1 ops).2
+  have hb := (h0.bnd hl).run ops
+  refine ⟨pre, post, e, hd, hlen, by rw [hlen]; exact Nat.le_trans hb.2.1 hb.2.2, ?_⟩
+  intro t ht
+  have := pending_young c0 h0 ops hm t ht
+  exact ⟨this.1, this.2.1⟩
+
+/-! ## non-vacuity -/
+
+/-- commit by count: 50 inserts at the same instant stay pending, the 51st flushes all 51 -/
+example :
+    Init Ex.c0 ∧ Ex.c0.lazy = true ∧ Mono Ex.c0.last (List.replicate 51 (.insertOne 0 "b" (Ex.ev 1)) : List (COp Nat)) ∧
+    (crun Ex.c0 (List.replicate 50 (.insertOne 0 "b" (Ex.ev 1)))).pend.length = 50 ∧
+    (crun Ex.c0 (List.replicate 50 (.insertOne 0 "b" (Ex.ev 1)))).dur.events.length = 0 ∧
+    (crun Ex.c0 (List.replicate 51 (.insertOne 0 "b" (Ex.ev 1)))).pend.length = 0 ∧
+    (crun Ex.c0 (List.replicate 51 (.insertOne 0 "b" (Ex.ev 1)))).dur.events.length = 51 := by
+  refine ⟨Ex.init_c0, rfl, ?_, ?_, ?_, ?_, ?_⟩
+  · simp [List.replicate, Mono, COp.now, Ex.c0]
+  all_goals (set_option maxRecDepth 100000 in decide)
+
+/-- commit by age: a write 10.000001 s after the last commit flushes (itself included) -/
+example :
+    let ops : List (COp Nat) := [.insertOne 5 "b" (Ex.ev 1), .insertOne 10000001 "b" (Ex.ev 2)]
+    Mono Ex.c0.last ops ∧ (COp.insertOne 10000001 "b" (Ex.ev 2) : COp Nat).isSingleEventWrite = true ∧
+    cok (crun Ex.c0 [.insertOne 5 "b" (Ex.ev 1)]) (.insertOne 10000001 "b" (Ex.ev 2)) = true ∧
+    (10000001 : Int) - (crun Ex.c0 [.insertOne 5 "b" (Ex.ev 1)]).last > 10000000 ∧
+    (crun Ex.c0 [.insertOne 5 "b" (Ex.ev 1)]).pend = [5] ∧
+    (crun Ex.c0 ops).pend = [] ∧ (crun Ex.c0 ops).dur.events.length = 2 ∧ (crun Ex.c0 ops).last = 10000001 := by
+  refine ⟨?_, ?_, ?_, ?_, ?_, ?_, ?_, ?_⟩ <;> decide
+
+/-- exactly 10 s: no commit, both writes stay pending (and are within the age bound) -/
+example :
+    let ops : List (COp Nat) := [.insertOne 5 "b" (Ex.ev 1), .insertOne 10000000 "b" (Ex.ev 2)]
+    Mono Ex.c0.last ops ∧ (crun Ex.c0 ops).pend = [10000000, 5] ∧ (crun Ex.c0 ops).dur.events.length = 0 ∧
+    (crun Ex.c0 ops).cur.events.length = 2 ∧ (crun Ex.c0 ops).last = 0 := by
+  refine ⟨?_, ?_, ?_, ?_, ?_⟩ <;> decide
+
+/-- `insert_many` by age: with an upsert first, and with rows only -/
+example :
+    [Ex.evId 1 7, Ex.ev 2].filter (fun e => e.id.isSome) = [Ex.evId 1 7] ∧
+    [Ex.ev 1, Ex.ev 2].filter (fun e => e.id.isSome) = [] ∧
+    cok Ex.c0 (.insertMany 10000001 "b" [Ex.ev 1, Ex.ev 2]) = true ∧
+    (10000001 : Int) - Ex.c0.last > 10000000 ∧
+    (cstep Ex.c0 (.insertMany 10000001 "b" [Ex.ev 1, Ex.ev 2])).dur.events.length = 2 := by
+  refine ⟨?_, ?_, ?_, ?_, ?_⟩ <;> decide
+
 end AwProofs.C18
